@@ -465,7 +465,10 @@ def run(run, tier):
     for key, (size, what, c) in spec_bad.items():
         run.violation('C10/%s' % key if key.startswith('Simulation_Investigation.__init__/') else 'C10/%s/spec' % key,
                       what[:700], {'case': jsonable(c), 'what': what})
+    real_spec = [k for k in spec_bad if not k.startswith('Simulation_Investigation.__init__/')]
     for key, (size, what, c) in mism.items():
+        if real_spec:
+            continue        # a concrete failing input of the property was found; the broken correspondence is its consequence
         run.violation('C10/%s/correspondence' % key,
                       'correspondence Model/Investigation.v <-> EoN.Simulation_Investigation no longer checks (the theorems of Props/C10.v are about the model); '
                       'the python oracle found no failing input on this query: %s' % what[:500],
